@@ -29,7 +29,7 @@ class Reiterable:
         return iter(self._items)
 
 
-NOCLI = ("dictvalues", "customiter", "dictvalues_nested")  # cannot be written as a literal in workflow.py by repr()
+NOCLI = ("dictvalues", "customiter", "dictvalues_nested", "userdict", "mappingproxy")  # cannot be written as a literal in workflow.py by repr()
 
 
 def shapes(paths):
@@ -57,6 +57,8 @@ def shapes(paths):
             ("dict_in_list", lambda p: [{"a": p[0]}]),
             ("dictvalues", lambda p: {"a": p[0]}.values()),
             ("customiter", lambda p: Reiterable([p[0]])),
+            ("userdict", lambda p: __import__("collections").UserDict({"zz": p[0]})),
+            ("mappingproxy", lambda p: __import__("types").MappingProxyType({"zz": [p[0]]})),
         ]
     if k == 2:
         return [
